@@ -34,7 +34,8 @@ def run(ctx):
     cases += codec.empty_member_grid_cases(ctx, every=3 if ctx.tier == 'quick' else 1)   # empty / non-empty constructed members around OPTIONAL ones
     cases += codec.tag_grid_cases(ctx, every=2 if ctx.tier == 'quick' else 1)            # every kind under every tagging shape of depth 0..2
     cases += codec.set_order_grid_cases(ctx, every=12 if ctx.tier == 'quick' else 1)     # every ordered pair of differently tagged SET members
-    cases += codec.long_tag_set_order_cases(ctx) + codec.mixed_form_sibling_cases(ctx) + codec.default_constructed_cases(ctx) + codec.tagged_choice_in_choice_cases(ctx)   # round 7: long-form tag numbers of differing octet counts; long and short strings under the same tags; constructed DEFAULTs holding constructed members
+    thin = (lambda l, k: l[ctx.seed % k::k]) if ctx.tier == 'quick' else (lambda l, k: l)      # quick tier: a rotating share of the two big families (C02/C03 run them in full)
+    cases += thin(codec.long_tag_set_order_cases(ctx), 3) + thin(codec.mixed_form_sibling_cases(ctx), 2) + codec.default_constructed_cases(ctx) + codec.tagged_choice_in_choice_cases(ctx)   # round 7: long-form tag numbers of differing octet counts; long and short strings under the same tags; constructed DEFAULTs holding constructed members
     ctx.stats['constrained-leaf round trips'] += codec.constrained_leaf_roundtrips(ctx, codecs=('BER',))
     exprs, meta = [], []
     search_only = getattr(ctx, 'search_only', False)
